@@ -134,6 +134,11 @@ def gen_cases(ctx):
             add_m(m, L, rng.choice(SEQS), 'model-encodes')
         for L in small:
             add_m(m, L, 0, 'model-encodes-maxpad', pad=MAXEXTRA - TAG[m])
+        # a peer built from an independent implementation of the layout may pad ANY frame (the layout does not tie the
+        # padding to the sequence number; C04_interop): frames numbered 5 and above, padded, must decode as well
+        for L in small + [rng.randrange(1, 600) for _ in range(20 if q else 200)]:
+            add_m(m, L, rng.choice([5, 6, 2 ** 32, 2 ** 64 - 1, rng.randrange(5, 2 ** 64)]), 'model-encodes-padded-late-frame',
+                  pad=rng.choice([1, 17, MAXEXTRA - TAG[m], rng.randrange(1, MAXEXTRA - TAG[m] + 1)]))
         add_m(m, 16401 - HDR - MAXEXTRA, 1, 'model-encodes-near-max', pad=MAXEXTRA - TAG[m])
         if not q:
             step = 16 if m in (0, 2) else 64
